@@ -16,8 +16,8 @@ type bv = wrapperspb.BytesValue
 
 // ---- option forests ----
 type optNode struct {
-	kind  int    // 0 WithInterceptors, 1 WithOptions, 2 WithClientOptions/WithHandlerOptions, 3 other option
-	ids   []int  // kind 0: interceptor ids, 0 = nil entry
+	kind  int   // 0 WithInterceptors, 1 WithOptions, 2 WithClientOptions/WithHandlerOptions, 3 other option
+	ids   []int // kind 0: interceptor ids, 0 = nil entry
 	nodes []*optNode
 }
 
@@ -465,4 +465,3 @@ func C16(r *h.Run) {
 		runOne(sides[i%4], forest)
 	}
 }
-
